@@ -26,7 +26,7 @@ pub struct SMem {
     pub pre: Vec<(u32, u8)>,
     pub writes: Vec<(u32, u8)>,
     /// dense 1 MiB image (whole-program runs); when present, pre/writes are not used
-    pub dense: Option<Vec<u8>>,
+    pub dense: Option<std::sync::Arc<Vec<u8>>>,
 }
 
 impl SMem {
@@ -49,7 +49,8 @@ impl SMem {
     }
     pub fn wr(&mut self, a: u32, v: u8) {
         if let Some(d) = &mut self.dense {
-            d[(a & 0xFFFFF) as usize] = v;
+            // copy on write: `exec` clones the machine, the 1 MiB image is copied only when a clone writes
+            std::sync::Arc::make_mut(d)[(a & 0xFFFFF) as usize] = v;
             return;
         }
         self.writes.push((a & 0xFFFFF, v));
@@ -185,7 +186,7 @@ impl Machine {
         }
     }
 
-    fn width_of(o: &Opd) -> Option<u32> {
+    pub fn width_of(o: &Opd) -> Option<u32> {
         match o {
             Opd::R8(_) => Some(8),
             Opd::R16(_) | Opd::Sr(_) => Some(16),
